@@ -132,3 +132,39 @@ def r_inplace(E):
     res.undecided += E.unknowns()
     res.floor = 3
     return res
+
+
+@rule("R-PARENT-USED")
+def r_parent_used(E):
+    pm = E.pm
+    res = RuleResult("R-PARENT-USED", "at every explicit constructor site of a rule, each recorded parent is something the "
+                                      "value is actually computed from (by data, or by the branch / dispatch that selected "
+                                      "it): a parent that is recorded but not used means the formula shown — and the rule "
+                                      "the builder states — is not the one that is computed")
+    seen = set()
+    for (c, x), cx in E.contexts().items():
+        if cx is None:
+            continue
+        for s in cx.sites:
+            if s.ctor == "EmptyExplainableObject" or not s.parents:
+                continue
+            key0 = (s.func, getattr(s.node, "lineno", 0), c)
+            if key0 in seen:
+                continue
+            seen.add(key0)
+            used = {(r[0], r[1]) for r in s.valdeps} | {(r[0], r[1]) for r in s.ctl}
+            usedA = E.anc_star(used) | used
+            for p in sorted({(r[0], r[1]) for r in s.parents}):
+                res.instances += 1
+                if p not in usedA:
+                    res.findings.append(Finding(
+                        "R-PARENT-USED", f"{s.func} ctor {s.ctor} records unused {p[1]}",
+                        f"{s.func} records {p[0]}.{p[1]} as parent of the {s.ctor} it builds, but the value is computed "
+                        f"from {sorted(f'{a}.{b}' for a, b in used) or 'constants'} only: either the dependency was lost "
+                        f"from the computation (a lookup that ignores one of its keys) or the explanation is wrong",
+                        s.path, s.node.lineno, s.func, {"context": f"{c}.update_{x}"}))
+                elif len(res.samples) < 4:
+                    res.samples.append({"site": s.func, "parent": f"{p[0]}.{p[1]}", "verdict": "used by the value"})
+    res.undecided += E.unknowns()
+    res.floor = 30
+    return res
